@@ -118,6 +118,13 @@ func hostileSweep() []func(c *Cfg) string {
 		add("from", func(c *Cfg) { c.Validity = Validity{From: v, Until: "2030-01-01"} })
 		add("until", func(c *Cfg) { c.Validity = Validity{From: "2020-01-01", Until: v} })
 	}
+	for _, v := range hostileDates {
+		v := v
+		add("from-alone", func(c *Cfg) { c.Validity = Validity{From: v} })              // the default lifetime is added to it
+		add("from-plus-day", func(c *Cfg) { c.Validity = Validity{From: v, Duration: "1d"} }) // may cross the year 9999
+	}
+	add("duration-to-year-10000", func(c *Cfg) { c.Validity = Validity{From: "2024-01-01", Duration: "9999y"} })
+	add("duration-to-year-10000", func(c *Cfg) { c.Validity = Validity{From: "9000-01-01", Duration: "11999m"} })
 	for _, v := range hostileDurations {
 		v := v
 		add("duration", func(c *Cfg) { c.Validity = Validity{From: "2024-02-29", Duration: v} })
@@ -208,18 +215,24 @@ func streamHostileCfg() {
 		var profs []*Profile
 		var which int
 		var slot string
+		var benign Cfg
 		if i < len(sweep) {
 			ents = []entity{{name: "root", cfg: plainRoot()}, {name: "sub", cfg: plainSub(i)}}
 			ents[1].cfg.Issuer, ents[1].cfg.SigAlg = "root", "ECDSAwithSHA256"
 			which = 1
+			benign = ents[1].cfg
 			slot = sweep[i](&ents[1].cfg)
 		} else {
 			ents, profs = g.hierarchy(i)
 			which = g.r.Intn(2)
+			benign = ents[which].cfg
 			slot = g.poison(&ents[which].cfg)
 		}
 		_ = slot
 		text := jsonText(ents[which].cfg.tree())
+		// the hostile value as an *edit*: the entity already has an artifact (and a stored hash) from its previous configuration
+		// when the hostile text arrives; planning under every kind of flag must not panic (F28 was found this way)
+		runHostileEdit(fmt.Sprintf("c20-%d-%d-edit[%s]", seed, i, slot), ents, profs, which, benign, text)
 		// does the configuration still pass parsing and the schema?  If not it is skipped with a warning: no model case
 		parsed := true
 		func() {
@@ -259,6 +272,34 @@ func runHostileDir(tag string, ents []entity, profs []*Profile, which int, text 
 		m[e.name+".yaml"] = &fstest.MapFile{Data: []byte(data), Mode: 0644, ModTime: t0}
 	}
 	runGuarded(tag, m, 9)
+}
+
+func runHostileEdit(tag string, ents []entity, profs []*Profile, which int, benign Cfg, text string) {
+	m := fstest.MapFS{".": &fstest.MapFile{Mode: 0777 | fs.ModeDir}}
+	t0 := time.Now().Add(-time.Hour)
+	for _, p := range profs {
+		m["profiles/"+p.Name+".yaml"] = &fstest.MapFile{Data: []byte(yamlOf(p.tree())), Mode: 0644, ModTime: t0}
+	}
+	for i, e := range ents {
+		c := e.cfg
+		if i == which {
+			c = benign
+		}
+		m[e.name+".yaml"] = &fstest.MapFile{Data: []byte(yamlOf(c.tree())), Mode: 0644, ModTime: t0}
+	}
+	if runGuarded(tag+"/before", m, 9) != "ok" {
+		return // the unedited hierarchy does not build (random hierarchies may be unsatisfiable): nothing to edit
+	}
+	m[ents[which].name+".yaml"] = &fstest.MapFile{Data: []byte(text), Mode: 0644, ModTime: time.Now()}
+	for _, strat := range []int{9, 2, 4, 8, 16} {
+		// on a copy, so that every strategy meets the same state
+		c := fstest.MapFS{}
+		for k, v := range m {
+			cp := *v
+			c[k] = &cp
+		}
+		runGuarded(tag, c, strat)
+	}
 }
 
 func runGuarded(tag string, m fstest.MapFS, strat int) string {
